@@ -20,13 +20,16 @@ import (
 //	silent   a node that never answers
 //	none     no node available
 type fakeRequestor struct {
-	mu       vsched.Mutex
-	script   []string
-	blocks   map[bitcoin.Hash32]*testBlock
-	calls    int
-	active   map[bitcoin.Hash32]int // requests handed to a node and not yet finished
-	maxSeen  int
-	requests []bitcoin.Hash32
+	mu        vsched.Mutex
+	script    []string
+	blocks    map[bitcoin.Hash32]*testBlock
+	calls     int
+	active    map[bitcoin.Hash32]int // requests handed to a node and not yet finished
+	maxSeen   int
+	requests  []bitcoin.Hash32
+	bm        *bitcoin_reader.BlockManager
+	limit     int
+	overLimit string
 }
 
 func (r *fakeRequestor) RequestBlock(ctx context.Context, hash bitcoin.Hash32, handler bitcoin_reader.HandleBlock,
@@ -42,6 +45,15 @@ func (r *fakeRequestor) RequestBlock(ctx context.Context, hash bitcoin.Hash32, h
 	r.requests = append(r.requests, hash)
 	blk := r.blocks[hash]
 	r.mu.Unlock()
+	if r.bm != nil {
+		// concurrency limit: at the time of a new request fewer downloads of this block than the
+		// configured number may be registered
+		if n := r.bm.DownloaderCount(hash); n >= r.limit {
+			r.mu.Lock()
+			r.overLimit = fmt.Sprintf("request %d for the block issued while %d downloads of it are registered (limit %d)", i, n, r.limit)
+			r.mu.Unlock()
+		}
+	}
 	if behaviour == "none" || blk == nil {
 		return nil, bitcoin_reader.ErrNodeNotAvailable
 	}
@@ -93,6 +105,7 @@ func managerScenario(c mgrConfig) func() func() []string {
 			req.blocks[b.hash] = b
 		}
 		bm := bitcoin_reader.NewBlockManager(store, req, c.concurrent, 5*time.Second)
+		req.bm, req.limit = bm, c.concurrent
 		interrupt := make(chan interface{})
 		managerDone := make(chan interface{})
 		var runErr error
@@ -204,10 +217,8 @@ func managerScenario(c mgrConfig) func() func() []string {
 					problems = append(problems, fmt.Sprintf("downloaders-left: %d downloaders still registered at quiescence", n))
 				}
 			}
-			if len(req.requests) > 0 {
-				// concurrency limit: never more simultaneous downloads of one block than configured
-				// (checked through the number of node requests per poll round: calls <= polls * limit)
-				_ = req.maxSeen
+			if req.overLimit != "" {
+				problems = append(problems, "concurrency-limit: "+req.overLimit)
 			}
 			label(fmt.Sprintf("%s/run:%s", lbl, errClass(runErr)))
 			return problems
